@@ -225,7 +225,7 @@ def run_chunk(args):
         tag = f"{variant}-{world}-{mode}-{cur}"
         cmd = [binary, "run", world, str(mode), str(seed), str(cur), str(hi),
                "--plans", os.path.join(tmpdir, "plans-" + tag), "--states", os.path.join(tmpdir, "states-" + tag),
-               "--state-sample", str(sample)]
+               "--interleavings", os.path.join(tmpdir, "inter-" + tag), "--state-sample", str(sample)]
         p = subprocess.run(cmd, stdout=subprocess.PIPE, stderr=subprocess.PIPE, text=True, errors="replace")
         crashed, restart = parse_worker_output(p.stdout, variant, res, keep_hashes)
         if crashed is None and restart is not None:
@@ -497,6 +497,7 @@ def do_check(prop, tier, seed, scale=1.0, jobs=NCPU):
                                     plan=gen_plan(bins[plan[0][0]], b["world"], b["mode"], seed, i).split("\n")[:40]))
         n_plans, distinct_plans = count_distinct(bins[variants[0]], os.path.join(tmpdir, "plans-*"))
         n_states, distinct_states = count_distinct(bins[variants[0]], os.path.join(tmpdir, "states-*"))
+        n_inter, distinct_inter = count_distinct(bins[variants[0]], os.path.join(tmpdir, "inter-*"))
 
         if total.harness_bugs:
             print("HARNESS-BUG:", total.harness_bugs[0])
@@ -586,6 +587,9 @@ def do_check(prop, tier, seed, scale=1.0, jobs=NCPU):
                 abstract_states_rule=("exact count of distinct abstract-state hashes" if STATE_SAMPLE[tier] == 1 else
                                       f"estimate: distinct hashes inside a 1/{STATE_SAMPLE[tier]} hash-prefix slice, times {STATE_SAMPLE[tier]} (bounds disk and memory in the thorough tier)"),
                 nontrivial_runs=total.nontrivial,
+                **({"distinct_interleavings": distinct_inter,
+                    "interleavings_rule": "distinct (scenario, sequence of (task, source line of the atomic step it was resumed at)) hashes over the runs of this batch"}
+                   if n_inter else {}),
                 fault_and_reach_probes=probes,
                 required_probes_missing=missing,
                 batches=per_batch,
